@@ -1,8 +1,10 @@
 #!/bin/bash
 # tools/all_harmless.sh : re-apply every behaviour-preserving patch under harmless/ to a scratch worktree and run all 20 checks on it.
+# PROPS="C01 C03" tools/all_harmless.sh restricts the checks (default: all 20).
 # Expected: "nonzero:[ none]" on every line.
 cd /verif
-(for id in $(ls -d harmless/C*_* | xargs -n1 basename | sed "s/_[0-9]*$//" | sort -u); do tools/try_harmless.sh $id; done
- for id in $(ls -d harmless/sC*_* 2>/dev/null | xargs -n1 basename | sed "s/_[0-9]*$//; s/^s//" | sort -u); do HPREFIX=h2 tools/try_harmless.sh $id; done
- for id in $(ls -d harmless/tC*_* 2>/dev/null | xargs -n1 basename | sed "s/_[0-9]*$//; s/^t//" | sort -u); do HPREFIX=h3 tools/try_harmless.sh $id; done) | tee /tmp/all_harmless.out
+(for id in $(ls -d harmless/C*_* | xargs -n1 basename | sed "s/_[0-9]*$//" | sort -u); do tools/try_harmless.sh $id $PROPS; done
+ for id in $(ls -d harmless/sC*_* 2>/dev/null | xargs -n1 basename | sed "s/_[0-9]*$//; s/^s//" | sort -u); do HPREFIX=h2 tools/try_harmless.sh $id $PROPS; done
+ for id in $(ls -d harmless/tC*_* 2>/dev/null | xargs -n1 basename | sed "s/_[0-9]*$//; s/^t//" | sort -u); do HPREFIX=h3 tools/try_harmless.sh $id $PROPS; done
+ for id in $(ls -d harmless/uC*_* 2>/dev/null | xargs -n1 basename | sed "s/_[0-9]*$//; s/^u//" | sort -u); do HPREFIX=h4 tools/try_harmless.sh $id $PROPS; done) | tee /tmp/all_harmless.out
 ! grep -v "nonzero:\[ none\]" /tmp/all_harmless.out | grep -q .
